@@ -3,13 +3,13 @@ package gateway
 // C13 — Gateway API routes: exact split, narrow matches, clean restore (DESIGN.md §6 C13).
 
 import (
+	"context"
+	"fmt"
 	"github.com/openkruise/rollouts/api/v1beta1"
 	"github.com/openkruise/rollouts/pkg/verifrt"
 	"github.com/openkruise/rollouts/pkg/verifrt/symclient"
 	metav1 "k8s.io/apimachinery/pkg/apis/meta/v1"
 	"sigs.k8s.io/controller-runtime/pkg/client"
-	"context"
-	"fmt"
 	gatewayv1beta1 "sigs.k8s.io/gateway-api/apis/v1beta1"
 )
 
@@ -428,3 +428,8 @@ func VerifC13_EnsureRoutesAndFinalise() {
 	retry, err4 := r.Finalise(context.TODO())
 	verifrt.Assert(err4 == nil && !retry, "C13.finalise.secondCallNothingToDo")
 }
+
+// C03 (share written to the Gateway API equals the step's value) and C04 (Finalise really withdraws the canary
+// backend before the canary Service may be removed) are the same obligations as C13's, run under those properties too.
+func VerifC03_GatewayStepShare()               { VerifC13_WeightStep() }
+func VerifC04_GatewayFinaliseWithdrawsCanary() { VerifC13_EnsureRoutesAndFinalise() }
